@@ -80,6 +80,23 @@ def cmd_check(args):
                 s2 = dict(s)
                 s2['unit'] = r['unit']
                 slots.append(s2)
+    # bounded stand-in (DESIGN 4.2): a unit the verifier could not decide (lost anchor, unsupported construct)
+    # gets the bounded replay search of its witness families; a concrete failing input on the real code is a
+    # violation found by a bounded check (labelled as such), anything else leaves the unit undecided.
+    bounded = []
+    for r in results:
+        if r['status'] != 'ok':
+            for fam in reg['units'][r['unit']].get('witness', []):
+                try:
+                    w = replayers.search_family(fam, prop)
+                except Exception as e:
+                    w = None
+                    undecided.append('%s: bounded replay search %s crashed: %r' % (r['unit'], fam, e))
+                bounded.append({'unit': r['unit'], 'family': fam, 'found': bool(w)})
+                if w:
+                    obligations.append({'id': '%s::bounded-replay::%s' % (r['unit'], fam), 'slot': None, 'props': [prop], 'status': 'failed',
+                                        'kind': 'bounded-replay', 'message': 'the unit is undecided (%s); the bounded replay search found a failing input on the real code: %s' % (one_line('; '.join(r['reasons']), 200), w.get('why')),
+                                        'src': None, 'unit': r['unit'], 'witness': w})
     for a in pcfg.get('assumptions', []):
         if a not in assumptions:
             assumptions.append(a)
@@ -110,6 +127,7 @@ def cmd_check(args):
     # replay files + lines
     rdir = os.path.join(ROOT, 'replays', prop)
     lines = []
+    unconfirmed = []
     for o in known_hit:
         k = [x for x in known if x['obligation'] == o['id']][0]
         lines.append('KNOWN-FINDING: property=%s %s %s' % (prop, o['id'], k.get('what', '')))
@@ -121,7 +139,7 @@ def cmd_check(args):
                'failed_clause': o.get('failed_clause'), 'checked_text': o.get('text'), 'counterexample': o.get('counterexample'),
                'repo_head': repo_head(), 'input': None, 'replay': None}
         try:
-            w = replayers.find_witness(o, rep)
+            w = o.get('witness') or replayers.find_witness(o, rep)
         except Exception as e:  # the witness search never decides anything
             w = None
             rep['replay_error'] = repr(e)
@@ -130,6 +148,11 @@ def cmd_check(args):
             rep['replay'] = w
         with open(path, 'w') as fh:
             json.dump(rep, fh, indent=1)
+        if o.get('adapted') and rep['input'] is None:
+            # adapted mode: a helper without a contract was pulled in; an unconfirmed failure is undecided
+            undecided.append('%s: obligation %s fails after adapting to helpers %s that have no contract; replay found no failing input' % (o.get('unit'), o['id'], ','.join(o.get('adapted_helpers', [])) or '(new functions)'))
+            unconfirmed.append(o)
+            continue
         suffix = '' if rep['input'] is not None else ' no-failing-input-found'
         lines.append('VIOLATION property=%s replay=%s%s' % (prop, path, suffix))
     shown = []
@@ -165,7 +188,7 @@ def cmd_check(args):
             'failed_obligations': [o['id'] for o in violations],
             'scope': pcfg.get('scope', ''),
             'not_covered': pcfg.get('not_covered', []),
-            'bounded': [],
+            'bounded': bounded,
             'repo_head': repo_head(), 'repo_dirty': repo_dirty(),
         },
         'assumptions': assumptions,
@@ -179,6 +202,7 @@ def cmd_check(args):
         print(l)
     print('%s: %d obligations, %d discharged, %d violations, %d known findings, %d undecided reasons, %.1fs (solver %.1fs)' % (
         prop, n_total, n_dis, len(violations), len(known_hit), len(undecided), wall, solver_s))
+    violations = [o for o in violations if o not in unconfirmed]
     if violations:
         return 1
     if undecided:
